@@ -213,6 +213,8 @@ class mm_reader {
                 }
             }
 
+            check_no_more_data();
+
             std::partial_sum(ptr.begin(), ptr.end(), ptr.begin());
 
             col.resize(ptr.back());
@@ -290,6 +292,8 @@ class mm_reader {
                 }
             }
 
+            check_no_more_data();
+
             return std::make_tuple(row_end - row_beg, m);
         }
     private:
@@ -302,6 +306,15 @@ class mm_reader {
         bool _integer;
 
         size_t nrows, ncols;
+
+        // The file should not hold more data lines than its size line announced.
+        void check_no_more_data() {
+            while(std::getline(f, line)) {
+                precondition(
+                        line.find_first_not_of(" \t\r") == std::string::npos,
+                        format_error("more data lines than announced"));
+            }
+        }
 
         std::string format_error(const std::string &msg = "") const {
             std::string err_string = "MatrixMarket format error";
